@@ -41,8 +41,11 @@ RULE = {
            "distinct = distinct hash of the whole literal case",
 }
 
-DTYPES = ["int32", "uint16", "uint64", "int64", "uint8"]
-DT_MAX = {"int32": 2**31 - 1, "uint16": 2**16 - 1, "uint64": 2**62, "int64": 2**62, "uint8": 2**8 - 1}
+DTYPES = ["int32", "uint16", "uint64", "int64", "uint8", "uint32"]
+DT_MAX = {"int32": 2**31 - 1, "uint16": 2**16 - 1, "uint64": 2**62, "int64": 2**62, "uint8": 2**8 - 1,
+          "uint32": 2**32 - 1}
+# the true top of the narrow dtypes: shifted labels must not wrap around in the INPUT's width
+DT_TOP = {"int32": 2**31 - 1, "uint16": 2**16 - 1, "uint8": 2**8 - 1, "uint32": 2**32 - 1}
 
 
 # ------------------------------------------------------------------------------------------------
@@ -421,7 +424,9 @@ def gen_labels(rng: random.Random, shape: list[int], dtype: str, lead: int,
                small_only: bool = False) -> list[int]:
     """flat data: `lead` frames; frames with no labels, repeated labels, large values"""
     npx = int(np.prod(shape)) // lead if lead else 0
-    style = rng.choice(["small", "small", "reuse"] if small_only else ["small", "small", "reuse", "big", "mixed"])
+    style = rng.choice(["small", "small", "reuse"] if small_only else ["small", "small", "reuse", "big", "mixed", "top"])
+    if style == "top" and dtype not in DT_TOP:
+        style = "big"
     big = DT_MAX[dtype] // 16
     pool_small = [1, 2, 3, 4, 5]
     data: list[int] = []
@@ -433,7 +438,11 @@ def gen_labels(rng: random.Random, shape: list[int], dtype: str, lead: int,
         elif style == "reuse" and base_frame is not None and rng.random() < 0.6:
             fr = list(base_frame)
         else:
-            if style == "big" or (style == "mixed" and rng.random() < 0.4):
+            if style == "top":
+                pool = [DT_TOP[dtype] - rng.randint(0, 6) for _ in range(rng.randint(1, 3))]
+                if rng.random() < 0.5:
+                    pool.append(rng.randint(1, 5))
+            elif style == "big" or (style == "mixed" and rng.random() < 0.4):
                 k = rng.randint(1, 3)
                 pool = [rng.randint(1, big) for _ in range(k)]
             else:
